@@ -393,6 +393,29 @@ def run(ck, F):
                  f'{f["id"]}: when the growth fails, {changed} has already been changed: the sequence reports a length its storage does not have',
                  loc=f['loc'], fn=f['id'])
 
+    # ---------------------------------------------------------------- no unchecked downcast
+    R4d = ck.rule('C14.downcasts-confirmed', 'a static downcast (base pointer or reference to derived) in the library is one of the sites '
+                  'confirmed by reading: anywhere else the dynamic type of the object is not established, and a member read through the '
+                  'wrong layout passes the null test with another member\'s bits instead of being refused', floor=1)
+    CONFIRMED_DOWNCASTS = {
+        'ipr::impl::decl_factory::redeclare': 'the entry handed in was found by the calling Scope::make_X in the overload set of the declared '
+                                              'name under the declared type; entries are created by the same family of functions',
+    }
+    import re as _re3
+    sites = {}
+    for f in F.fn.values():
+        if not (f.get('loc') or '').startswith(('src/', 'include/ipr')):
+            continue
+        for n in walk(f.get('body')):
+            if n.get('k') == 'cast' and n.get('ck') == 'BaseToDerived':
+                q = _re3.sub(r'<[^<>]*(?:<[^<>]*>[^<>]*)*>', '', contracts.fn_qname(f['id']))
+                sites.setdefault((q, f['loc'].split(':')[0]), []).append((f, n))
+    for (q, _file), lst in sorted(sites.items()):
+        f, n = lst[0]
+        ck.check(R4d, contracts.short(q), q in CONFIRMED_DOWNCASTS,
+                 f'{f["id"]} (line {n.get("ln")}) casts a `{(n.get("e") or {}).get("t")}` down to `{n.get("t")}` without establishing what the object is: '
+                 'if it is of another kind, the members read afterwards are another class\'s', loc=f['loc'], fn=f['id'])
+
     # ---------------------------------------------------------------- a refusal must be able to leave the function
     R4b = ck.rule('C14.noexcept-honest', 'a function written noexcept, and every destructor, has no path on which an exception is raised: '
                   'an exception that meets a noexcept boundary ends the program (std::terminate) instead of reaching the caller as a '
